@@ -181,7 +181,7 @@ def _coqproject():
                        stdout=subprocess.DEVNULL, stderr=subprocess.DEVNULL)
 
 
-def make(targets, timeout=1500, fresh=()):
+def make(targets, timeout=1500, fresh=(), extra_args=()):
     """full .vo build of `targets` (paths relative to coq/); returns (ok, output)"""
     with Lock():
         _coqproject()
@@ -192,7 +192,7 @@ def make(targets, timeout=1500, fresh=()):
                 except FileNotFoundError:
                     pass
         try:
-            r = subprocess.run(["make", "-j16", "-k"] + list(targets), cwd=COQ, stdout=subprocess.PIPE,
+            r = subprocess.run(["make", "-j16", "-k"] + list(extra_args) + list(targets), cwd=COQ, stdout=subprocess.PIPE,
                                stderr=subprocess.STDOUT, text=True, timeout=timeout)
             return r.returncode == 0, r.stdout
         except subprocess.TimeoutExpired as e:
@@ -202,16 +202,12 @@ def make(targets, timeout=1500, fresh=()):
             return False, out + "\nTIMEOUT"
 
 
-def _check_property_file(name, allowed_axioms):
-    """build Properties/<name>.vo from scratch-of-that-file; parse theorems + Print Assumptions"""
+def _parse_property_file(name, ok, out, allowed_axioms):
+    """theorems + Print Assumptions blocks of one Properties/<name>.v from the build output that belongs to it"""
     src = os.path.join(COQ, "Properties", name + ".v")
-    if not os.path.exists(src):
-        return {"theorems": [], "ok": False, "log": "", "axioms": {}, "bad_axioms": {}, "failed_at": None,
-                "error": f"Properties/{name}.v does not exist", "discharged": 0}
     text = open(src).read()
     theorems = re.findall(r"^\s*Theorem\s+(\w+)", text, flags=re.M)
     printed = re.findall(r"^\s*Print Assumptions\s+(\w+)\s*\.", text, flags=re.M)
-    ok, out = make([f"Properties/{name}.vo"], fresh=[f"Properties/{name}.vo"])
     res = {"theorems": theorems, "ok": ok, "log": out, "axioms": {}, "bad_axioms": {}, "failed_at": None}
     if not ok:
         m = re.search(r'File "\./([^"]+)", line (\d+)', out)
@@ -243,14 +239,55 @@ def _check_property_file(name, allowed_axioms):
     return res
 
 
+def _check_property_file(name, allowed_axioms):
+    """build Properties/<name>.vo from scratch-of-that-file; parse theorems + Print Assumptions"""
+    src = os.path.join(COQ, "Properties", name + ".v")
+    if not os.path.exists(src):
+        return {"theorems": [], "ok": False, "log": "", "axioms": {}, "bad_axioms": {}, "failed_at": None,
+                "error": f"Properties/{name}.v does not exist", "discharged": 0}
+    ok, out = make([f"Properties/{name}.vo"], fresh=[f"Properties/{name}.vo"])
+    return _parse_property_file(name, ok, out, allowed_axioms)
+
+
+def _check_property_files_together(names, allowed_axioms):
+    """all property files in ONE make call (each compiled from scratch-of-that-file, in parallel); `make -Otarget` keeps the output of
+    every target together, introduced by its `COQC Properties/<name>.v` line, so that the Print Assumptions blocks can be attributed.
+    Returns None when the output cannot be attributed (the caller then builds the files one after the other)."""
+    if any(not os.path.exists(os.path.join(COQ, "Properties", n + ".v")) for n in names):
+        return None
+    targets = [f"Properties/{n}.vo" for n in names]
+    ok, out = make(targets, fresh=targets, extra_args=["-Otarget"])
+    parts = re.split(r"^COQC (\S+)\s*$", out, flags=re.M)
+    per = {}
+    for i in range(1, len(parts) - 1, 2):
+        per[parts[i]] = per.get(parts[i], "") + parts[i + 1]
+    res = {}
+    for n in names:
+        key = f"Properties/{n}.v"
+        built = os.path.exists(os.path.join(COQ, "Properties", n + ".vo"))
+        if key not in per:
+            if built or ok:
+                return None                       # compiled but its output was not found: do not guess
+            # not compiled at all: something it depends on failed
+            res[n] = _parse_property_file(n, False, out, allowed_axioms)
+            continue
+        res[n] = _parse_property_file(n, built, per[key] if built else per[key] + "\n" + out[-3000:], allowed_axioms)
+    return res
+
+
 def check_properties(prop, allowed_axioms, extra_files=()):
     """Properties/<prop>.v plus the shared source-tie theorem files the property module names in EXTRA_PROPERTY_FILES (each of the
-    same Theorem / exact / Print Assumptions form); every file is built from scratch-of-that-file, one after the other, so that the
-    Print Assumptions blocks can be attributed; the results are merged (all files must check)."""
-    res = _check_property_file(prop, allowed_axioms)
+    same Theorem / exact / Print Assumptions form); every file is built from scratch-of-that-file (in one parallel make call whose
+    output is grouped per target, or one after the other when that output cannot be attributed), so that the Print Assumptions blocks
+    can be attributed; the results are merged (all files must check)."""
+    names = [prop] + list(extra_files)
+    together = _check_property_files_together(names, allowed_axioms) if len(names) > 1 else None
+    if together is None:
+        together = {n: _check_property_file(n, allowed_axioms) for n in names}
+    res = together[prop]
     res["files"] = {prop: {"obligations": len(res["theorems"]), "discharged": res["discharged"]}}
     for name in extra_files:
-        r = _check_property_file(name, allowed_axioms)
+        r = together[name]
         res["files"][name] = {"obligations": len(r["theorems"]), "discharged": r["discharged"]}
         res["theorems"] = res["theorems"] + r["theorems"]
         res["axioms"].update(r["axioms"])
